@@ -242,8 +242,10 @@ class _ReadSourceGenerator:
 
                 current_block.append(field)
 
-            if size is None:
+            if size is None or issubclass(element_type, Structure):
                 # Everything after a dynamically sized field is at an unknown offset, until a field with an explicit one
+                # The same goes for nested structures, which may consume a different number of bytes than their size
+                # (e.g. an aligned structure that doesn't start at a multiple of its alignment)
                 current_offset = None
             elif current_offset is not None and (not field.bits or bits_rollover):
                 current_offset += size
